@@ -1024,3 +1024,138 @@ pub fn run(cfg: &Cfg, out: &mut Out) {
         }
     }
 }
+
+// ---------------------------------------------------------------------------------------------
+// concurrent stream: two threads record() different fields on ONE span at overlapping times.
+//
+// The overlap is forced without any hook in the crate: the value thread A records renders through a `Debug`
+// impl of the harness that signals "A is inside record()" and waits until thread B has completed its own
+// record() on the same span (bounded wait).  Whatever the layer does between reading the span's labels and
+// writing them back happens around that rendering, so a read-copy-then-swap implementation loses B's field.
+// The property: a record() replaces only the fields it names; afterwards both fields are visible to metrics
+// emitted in the span and to children created from it.
+
+struct Gate {
+    state: Mutex<(bool, bool)>, // (A is rendering, B is done)
+    cv: std::sync::Condvar,
+}
+
+struct SlowDebug {
+    gate: Arc<Gate>,
+    text: &'static str,
+}
+
+impl std::fmt::Debug for SlowDebug {
+    fn fmt(&self, f: &mut std::fmt::Formatter<'_>) -> std::fmt::Result {
+        {
+            let mut st = self.gate.state.lock().unwrap();
+            st.0 = true;
+            self.gate.cv.notify_all();
+            let deadline = std::time::Instant::now() + std::time::Duration::from_millis(1500);
+            while !st.1 {
+                let now = std::time::Instant::now();
+                if now >= deadline {
+                    break;
+                }
+                let (g, _) = self.gate.cv.wait_timeout(st, deadline - now).unwrap();
+                st = g;
+            }
+        }
+        f.write_str(self.text)
+    }
+}
+
+pub fn run_concurrent(cfg: &Cfg, out: &mut Out) {
+    // (shape, field recorded by A (slow), field recorded by B, other fields with initial values)
+    let shapes: &[(usize, &str, &str)] = &[(6, "a", "b"), (6, "b", "c"), (6, "c", "a"), (3, "a", "b"), (4, "b", "a"), (10, "a", "k.x"), (10, "k.x", "c")];
+    let rounds = if cfg.thorough { 6 } else { 2 };
+    for round in 0..rounds {
+        for (si, (shape, fa, fb)) in shapes.iter().enumerate() {
+            for with_child in [false, true] {
+                out.case(&format!("concurrent record round={} shape={} A={} B={} child={}", round, shape, fa, fb, with_child));
+                out.count("concurrent record cases");
+                let log = Arc::new(Mutex::new(Vec::new()));
+                let subscriber = tracing_subscriber::registry().with(MetricsLayer::new());
+                let dispatch = Dispatch::new(subscriber);
+                let recorder = TracingContextLayer::all().layer(LogRecorder { log: log.clone() });
+                let names = SHAPES[*shape];
+                let init: Vec<Val> = names.iter().enumerate().map(|(i, _)| if (i + si + round) % 2 == 0 { Val::Empty } else { Val::Str(format!("init{}", i)) }).collect();
+                let span = tracing::dispatcher::with_default(&dispatch, || {
+                    let boxes: Vec<Box<dyn Value>> = init.iter().map(|v| v.boxed()).collect();
+                    let refs: Vec<&dyn Value> = boxes.iter().map(|b| &**b).collect();
+                    make_span(*shape, Par::Root, &refs)
+                });
+                let gate = Arc::new(Gate { state: Mutex::new((false, false)), cv: std::sync::Condvar::new() });
+                let t0 = std::time::Instant::now();
+                std::thread::scope(|sc| {
+                    let (d1, s1, g1) = (dispatch.clone(), span.clone(), gate.clone());
+                    let fa = *fa;
+                    sc.spawn(move || {
+                        tracing::dispatcher::with_default(&d1, || {
+                            s1.record(fa, tracing::field::debug(SlowDebug { gate: g1, text: "fromA" }));
+                        })
+                    });
+                    let (d2, s2, g2) = (dispatch.clone(), span.clone(), gate.clone());
+                    let fb = *fb;
+                    sc.spawn(move || {
+                        tracing::dispatcher::with_default(&d2, || {
+                            {
+                                let mut st = g2.state.lock().unwrap();
+                                let deadline = std::time::Instant::now() + std::time::Duration::from_millis(1500);
+                                while !st.0 {
+                                    let now = std::time::Instant::now();
+                                    if now >= deadline {
+                                        break;
+                                    }
+                                    let (g, _) = g2.cv.wait_timeout(st, deadline - now).unwrap();
+                                    st = g;
+                                }
+                            }
+                            s2.record(fb, "fromB");
+                            let mut st = g2.state.lock().unwrap();
+                            st.1 = true;
+                            g2.cv.notify_all();
+                        })
+                    });
+                });
+                if t0.elapsed() > std::time::Duration::from_millis(1400) {
+                    out.count("concurrent record: B could not finish while A was rendering (serialised)");
+                } else {
+                    out.nontrivial();
+                }
+                // expected: initial values, then both records applied to their own field only
+                let mut expect: BTreeMap<String, String> = BTreeMap::new();
+                for (n, v) in names.iter().zip(init.iter()) {
+                    if let Some(r) = v.rendered() {
+                        expect.insert(n.to_string(), r);
+                    }
+                }
+                expect.insert(fa.to_string(), "fromA".to_string());
+                expect.insert(fb.to_string(), "fromB".to_string());
+                let got_span: BTreeMap<String, String> = span_map(&dispatch, &span).unwrap_or_default().into_iter().collect();
+                if got_span != expect {
+                    out.oracle_fail(
+                        "two threads recorded different fields on one span at overlapping times and a field was lost or changed",
+                        &format!("shape {:?} initial {:?}; A: record({}, slow Debug → fromA) overlapping B: record({}, fromB); span labels afterwards {:?}, expected {:?}", names, init, fa, fb, got_span, expect),
+                    );
+                }
+                // what a metric emitted inside the span (or inside a child created now) is labelled with
+                let emitted: Vec<Logged> = tracing::dispatcher::with_default(&dispatch, || {
+                    metrics::with_local_recorder(&recorder, || {
+                        let target = if with_child { tracing::span!(parent: &span, tracing::Level::INFO, "child") } else { span.clone() };
+                        let _e = target.enter();
+                        metrics::counter!("m").increment(1);
+                    });
+                    log.lock().unwrap().clone()
+                });
+                let labels: BTreeMap<String, String> = emitted.last().map(|l| l.labels.iter().cloned().collect()).unwrap_or_default();
+                if labels != expect {
+                    out.oracle_fail(
+                        "a metric emitted after two overlapping record() calls on its span lacks a recorded field",
+                        &format!("shape {:?} A={} B={} child={} labels {:?} expected {:?}", names, fa, fb, with_child, labels, expect),
+                    );
+                }
+            }
+        }
+    }
+}
